@@ -32,7 +32,7 @@ def _job(args):
 
 def sig_of(t, bad, l):
     c = t["cfg"]
-    sig = {"version": c["version"], "ctype": c["ctype"], "ae": c["ae"], "pre": c["pre"], "at": bad["a"] if bad else None,
+    sig = {"method": c.get("method", "GET"), "version": c["version"], "ctype": c["ctype"], "ae": c["ae"], "pre": c["pre"], "at": bad["a"] if bad else None,
            "ops": "-".join(e["a"] for e in t["ev"] if e["a"] not in ("end", "response"))[:80]}
     if bad and bad["a"] == "response":
         ob = bad["obs"]
@@ -97,6 +97,8 @@ def run(ctx):
         rjobs.append((base + i + 1, cfg, ops, kw))
     rtraces = framework.pool_map(_job, rjobs)
     ctx.validate(FAM, "Trace_Gzip", "Trace_Gzip.cfg", rtraces, label="c2s", sig_fn=sig_of)
+    nhead = drv.head_vs_get(ctx, sig_of)
+    ctx.note("head_vs_get_traces", nhead)
     enc = sum(1 for t in traces + rtraces if t["ev"][-1]["obs"]["gz"]["used"])
     ctx.note("responses_gzip_encoded", enc)
     if enc == 0:
